@@ -23,7 +23,7 @@ try:
         print(pid, r.returncode, " | ".join(lines[-2:])[:300], flush=True)
 finally:
     subprocess.run(["git", "-C", "/repo", "checkout", "--", "."], check=True)
-    for tr in ("cbits.py", "omp.py", "guards.py", "persist.py"):
+    for tr in ("cbits.py", "omp.py", "guards.py", "persist.py", "pyint.py"):
         subprocess.run(["/venv/bin/python", os.path.join(VERIF, "harness", "translate", tr)])
 det = meta.get("detected_by") or {}
 for pid, o in out.items():
